@@ -119,7 +119,15 @@ impl Vector3 {
     pub fn norm(&self) -> (r: f64)
         ensures r == norm_s(*self),
     { unimplemented!() }
+    /// squared norm and dot product: not used by the pinned tree; deterministic functions of the operands, otherwise
+    /// UNCONSTRAINED, so that a change introducing them fails the obligations it breaks instead of leaving the unit undecided
+    #[verifier::external_body]
+    pub fn norm_squared(&self) -> (r: f64) ensures r == norm2_s(*self) { unimplemented!() }
+    #[verifier::external_body]
+    pub fn dot(&self, other: &Vector3) -> (r: f64) ensures r == dot_s(*self, *other) { unimplemented!() }
 }
+pub uninterp spec fn norm2_s(v: Vector3) -> f64;
+pub uninterp spec fn dot_s(a: Vector3, b: Vector3) -> f64;
 impl Translation3 {
     #[verifier::external_body]
     pub fn new(x: f64, y: f64, z: f64) -> (r: Translation3) ensures r.vector.x == x, r.vector.y == y, r.vector.z == z { unimplemented!() }
